@@ -5,6 +5,7 @@ package main
 
 import (
 	"fmt"
+	"os"
 	"go/ast"
 	"go/constant"
 	"go/token"
@@ -91,6 +92,12 @@ type FnExec struct {
 	epoch      int
 	pureMode   bool
 	subSeen    map[*Term]bool
+	rangeMaps  map[*Term]rangeMap
+}
+
+type rangeMap struct {
+	mt *types.Map
+	m  *Term
 }
 
 type ExecOpts struct {
@@ -289,6 +296,10 @@ func (fx *FnExec) analyseLoop(fr *frame, li *loopInfo) {
 			li.modAlloc[a] = true
 			return
 		}
+		if root := rootAlloc(addr); root != nil && fx.isLocalCell(root) {
+			li.modAlloc[root] = true
+			return
+		}
 		if root := rootAlloc(addr); root != nil && !fx.isLocalCell(root) {
 			if inLoop(root) {
 				if !allocEscapes(root) {
@@ -314,7 +325,8 @@ func (fx *FnExec) analyseLoop(fr *frame, li *loopInfo) {
 					fx.typeFamilies(t, li.modFam)
 				}
 			case *ssa.MapUpdate:
-				li.modFam["map"] = true
+				li.modFam["MD|"+mapTypeKey(x.Map.Type())] = true
+				li.modFam["MV|"+mapTypeKey(x.Map.Type())+"|"] = true
 			case *ssa.Call:
 				fx.callEffects(fr, x.Common(), li, addrEffect)
 			case *ssa.Defer:
@@ -435,13 +447,17 @@ func (fx *FnExec) typeFamilies(t types.Type, out map[string]bool) {
 
 // isLocalCell: a non-object Alloc whose address is only loaded from / stored to.
 func (fx *FnExec) isLocalCell(a *ssa.Alloc) bool {
-	if v, ok := fx.eng.cellCache[a]; ok {
+	fx.eng.mu.Lock()
+	v, ok := fx.eng.cellCache[a]
+	fx.eng.mu.Unlock()
+	if ok {
 		return v
 	}
 	t := a.Type().(*types.Pointer).Elem()
 	res := true
 	if isObjT(t) {
-		res = false
+		// a struct/array whose address never escapes is kept as a value ("scalar replacement")
+		res = valueRepresentable(t) && !allocEscapes(a) && !os_noLocalObj
 	} else if refs := a.Referrers(); refs != nil {
 		for _, r := range *refs {
 			switch x := r.(type) {
@@ -459,7 +475,9 @@ func (fx *FnExec) isLocalCell(a *ssa.Alloc) bool {
 			}
 		}
 	}
+	fx.eng.mu.Lock()
 	fx.eng.cellCache[a] = res
+	fx.eng.mu.Unlock()
 	return res
 }
 
@@ -561,7 +579,11 @@ func (fx *FnExec) execInstr(fr *frame, st *State, instr ssa.Instruction) {
 		t := x.Type().(*types.Pointer).Elem()
 		if fx.isLocalCell(x) {
 			st.locals[x] = fx.zeroVal(t)
-			fr.regs[x] = PtrV{Kind: PLocal, Alloc: x, Elem: t}
+			if isObjT(t) {
+				fr.regs[x] = PtrV{Kind: PLocalPath, Alloc: x, Elem: t}
+			} else {
+				fr.regs[x] = PtrV{Kind: PLocal, Alloc: x, Elem: t}
+			}
 			return
 		}
 		r := fx.newRef(x.Comment)
@@ -578,7 +600,7 @@ func (fx *FnExec) execInstr(fr *frame, st *State, instr ssa.Instruction) {
 		p := fx.ptrOf(fr, st, x.Addr, x.Pos())
 		fx.derefCheck(fr, st, p, x.Pos())
 		v := fx.val(fr, x.Val)
-		if p.Kind != PLocal {
+		if p.Kind != PLocal && p.Kind != PLocalPath {
 			fx.escape(fr, st, v)
 			if p.Kind == PGlobal {
 				fx.frameWrite(fr, st, nil, x.Pos(), "write a global variable")
@@ -614,6 +636,10 @@ func (fx *FnExec) execInstr(fr *frame, st *State, instr ssa.Instruction) {
 	case *ssa.MakeMap:
 		r := fx.newRef("map")
 		fr.regs[x] = r
+		if mt, ok := x.Type().Underlying().(*types.Map); ok && fx.mapModelled(mt) {
+			dk, dom := fx.mapDom(st, mt)
+			fx.setFamily(st, dk, c.Store(dom, r, c.ConstArr(ArrSort(mapKeySort(mt.Key()), BoolSort), c.False())))
+		}
 	case *ssa.MakeChan:
 		fr.regs[x] = fx.newRef("chan")
 		fx.drop("channel creation (channel contents not modelled)")
@@ -709,7 +735,13 @@ func (fx *FnExec) execInstr(fr *frame, st *State, instr ssa.Instruction) {
 		fx.oblige(fr, st, "nil", x.Pos(), c.Not(c.Eq(m, fx.nilRef())), "assignment to entry in nil map")
 		fx.mapUpdate(fr, st, x, m)
 	case *ssa.Range:
-		fr.regs[x] = fx.c.Fresh("iter", RefSort)
+		it := fx.c.Fresh("iter", RefSort)
+		fr.regs[x] = it
+		if mt, ok := x.X.Type().Underlying().(*types.Map); ok {
+			if m, ok := fx.val(fr, x.X).(*Term); ok {
+				fx.rangeMaps[it] = rangeMap{mt, m}
+			}
+		}
 	case *ssa.Next:
 		tt := x.Type().(*types.Tuple)
 		tv := TupleV{c.Fresh("next.ok", BoolSort)}
@@ -723,8 +755,29 @@ func (fx *FnExec) execInstr(fr *frame, st *State, instr ssa.Instruction) {
 			fx.markNilable(v)
 			tv = append(tv, v)
 		}
+		if it, ok := fx.val(fr, x.Iter).(*Term); ok {
+			if rm, ok := fx.rangeMaps[it]; ok && fx.mapModelled(rm.mt) && len(tv) == 3 {
+				// a delivered (key, value) pair is an entry of the map
+				func() {
+					defer func() {
+						if e := recover(); e != nil {
+							if _, ok := e.(oosError); !ok {
+								panic(e)
+							}
+						}
+					}()
+					k := fx.mapKeyTerm(st, rm.mt.Key(), tv[1])
+					ok, v := fx.mapRead(st, rm.mt, rm.m, k)
+					fx.assumeGlobal(c.Implies(tv[0].(*Term), ok))
+					lv, lw := fx.toLeaves(rm.mt.Elem(), v), fx.toLeaves(rm.mt.Elem(), tv[2])
+					for i := range lv {
+						fx.assumeGlobal(c.Implies(tv[0].(*Term), c.Eq(lv[i], lw[i])))
+					}
+				}()
+			}
+		}
 		fr.regs[x] = tv
-		fx.drop("range over map/string (iteration order and contents unconstrained)")
+		fx.drop("range over map/string (iteration order unconstrained; termination of the range not modelled)")
 	case *ssa.Send:
 		fx.escape(fr, st, fx.val(fr, x.X))
 		fx.drop("channel send (no blocking semantics)")
@@ -812,7 +865,7 @@ func (fx *FnExec) ptrOf(fr *frame, st *State, v ssa.Value, pos token.Pos) PtrV {
 
 // derefCheck emits / assumes the nil check for a dereference of p.
 func (fx *FnExec) derefCheck(fr *frame, st *State, p PtrV, pos token.Pos) {
-	if p.Ref == nil || p.Kind == PLocal || p.Kind == PGlobal {
+	if p.Ref == nil || p.Kind == PLocal || p.Kind == PGlobal || p.Kind == PLocalPath {
 		return
 	}
 	if p.Kind == PField || p.Kind == PElem || p.Kind == PView {
@@ -871,6 +924,13 @@ func (fx *FnExec) markNilable(v Val) {
 }
 
 func (fx *FnExec) fieldAddr(p PtrV, field int) PtrV {
+	if p.Kind == PLocalPath {
+		s, ok := under(p.Elem).(*types.Struct)
+		if !ok || p.Idx != nil {
+			fx.oos("FieldAddr on local non-struct")
+		}
+		return PtrV{Kind: PLocalPath, Alloc: p.Alloc, Path: append(append([]int{}, p.Path...), field), Elem: s.Field(field).Type()}
+	}
 	if p.Kind != PObj && p.Kind != PView {
 		fx.oos("FieldAddr on pointer kind %d", p.Kind)
 	}
@@ -902,6 +962,9 @@ func (fx *FnExec) indexAddr(fr *frame, st *State, x *ssa.IndexAddr) PtrV {
 		at := under(u.Elem()).(*types.Array)
 		n := fx.bv64(at.Len())
 		fx.boundsCheck(fr, st, x.Pos(), idx, n, x.Index)
+		if p.Kind == PLocalPath {
+			return PtrV{Kind: PLocalPath, Alloc: p.Alloc, Path: p.Path, Idx: idx, Elem: at.Elem()}
+		}
 		base := fx.bv64(0)
 		if p.Kind == PView {
 			base = p.Idx
@@ -1259,7 +1322,15 @@ func (fx *FnExec) valEq(st *State, t types.Type, a, b Val, bt types.Type) *Term 
 	case IfaceV:
 		switch y := b.(type) {
 		case IfaceV:
-			return c.And(c.Eq(x.Tag, y.Tag), c.Eq(x.Ref, y.Ref))
+			// an interface is nil iff its type tag is 0
+			z := c.BVInt(0, 32)
+			if y.Tag == z {
+				return c.Eq(x.Tag, z)
+			}
+			if x.Tag == z {
+				return c.Eq(y.Tag, z)
+			}
+			return c.And(c.Eq(x.Tag, y.Tag), c.Or(c.Eq(x.Tag, z), c.Eq(x.Ref, y.Ref)))
 		case *Term:
 			return c.Eq(x.Tag, c.BVInt(0, 32))
 		}
@@ -1292,6 +1363,10 @@ func (fx *FnExec) arrEq(t types.Type, a, b *Term) *Term {
 		return c.Eq(a, b)
 	}
 	n := at.Len()
+	if eb, ok := under(at.Elem()).(*types.Basic); ok && eb.Kind() == types.Uint8 && n <= 64 && n > 0 {
+		// byte arrays: one equality of the packed words (the same packing keys maps)
+		return c.Eq(fx.packBytes(a, n), fx.packBytes(b, n))
+	}
 	if n <= 64 {
 		var parts []*Term
 		for k := int64(0); k < n; k++ {
@@ -1444,21 +1519,51 @@ func (fx *FnExec) makeInterface(fr *frame, st *State, t types.Type, v Val) Val {
 			return IfaceV{tag, x}
 		}
 	}
-	// box the value so that a later type assertion can recover it
+	// box the value so that a later type assertion can recover it; boxed copies are immutable
+	// and live in their own families (IB|…), so they never alias program memory
 	r := fx.newRef("ibox")
-	if isObjT(t) {
-		defer func() {
-			if e := recover(); e != nil {
-				if _, ok := e.(oosError); !ok {
-					panic(e)
-				}
-			}
-		}()
-		fx.storeObj(st, t, r, v)
-	} else if leavesOf(t) != nil {
-		fx.storeBox(st, t, r, v)
+	if s := singleSort(t); s != nil {
+		if tm, ok := v.(*Term); ok && tm.Sort == s {
+			key := "IB|" + typeKey(t) + "|"
+			fam := fx.family(st, key, ArrSort(RefSort, s))
+			fx.setFamily(st, key, c.Store(fam, r, tm))
+		}
+	} else if !isObjT(t) && leavesOf(t) != nil {
+		lvs := fx.toLeaves(t, v)
+		for k, lf := range leavesOf(t) {
+			key := "IB|" + typeKey(t) + "|" + lf.name
+			fam := fx.family(st, key, ArrSort(RefSort, lf.sort))
+			fx.setFamily(st, key, c.Store(fam, r, lvs[k]))
+		}
+		fx.escape(fr, st, v)
+	} else {
+		fx.escape(fr, st, v)
 	}
 	return IfaceV{tag, r}
+}
+
+// unbox reads a value boxed by makeInterface.
+func (fx *FnExec) unbox(st *State, t types.Type, r *Term) Val {
+	if s := singleSort(t); s != nil {
+		key := "IB|" + typeKey(t) + "|"
+		fam := fx.family(st, key, ArrSort(RefSort, s))
+		v := fx.c.Select(fam, r)
+		if p, ok := under(t).(*types.Pointer); ok {
+			return fx.ptrFromRef(p.Elem(), v)
+		}
+		return v
+	}
+	if !isObjT(t) && leavesOf(t) != nil {
+		var ls []*Term
+		for _, lf := range leavesOf(t) {
+			key := "IB|" + typeKey(t) + "|" + lf.name
+			fam := fx.family(st, key, ArrSort(RefSort, lf.sort))
+			ls = append(ls, fx.c.Select(fam, r))
+		}
+		return fx.fromLeaves(t, ls, true)
+	}
+	fx.drop("type assertion to a struct value (contents unconstrained)")
+	return fx.freshVal(t, "unboxed")
 }
 
 func (fx *FnExec) typeAssert(fr *frame, st *State, x *ssa.TypeAssert) Val {
@@ -1478,12 +1583,8 @@ func (fx *FnExec) typeAssert(fr *frame, st *State, x *ssa.TypeAssert) Val {
 		t := x.AssertedType
 		if p, isP := under(t).(*types.Pointer); isP {
 			res = fx.ptrFromRef(p.Elem(), iv.Ref)
-		} else if isObjT(t) {
-			res = fx.loadObj(st, t, iv.Ref)
-		} else if leavesOf(t) != nil {
-			res = fx.loadBox(st, t, iv.Ref)
 		} else {
-			fx.oos("type assertion to %s", t)
+			res = fx.unbox(st, t, iv.Ref)
 		}
 	}
 	if x.CommaOk {
@@ -1517,4 +1618,41 @@ func (fx *FnExec) selectInstr(fr *frame, st *State, x *ssa.Select) Val {
 		}
 	}
 	return tv
+}
+
+// packBytes concatenates the first n bytes of a byte array into one bit-vector.
+func (fx *FnExec) packBytes(a *Term, n int64) *Term {
+	var t *Term
+	for i := int64(0); i < n; i++ {
+		b := fx.c.Select(a, fx.bv64(i))
+		if t == nil {
+			t = b
+		} else {
+			t = fx.c.Concat(t, b)
+		}
+	}
+	return t
+}
+
+var os_noLocalObj = os.Getenv("HOPVC_NO_LOCAL_OBJ") != ""
+
+// valueRepresentable: the type has a value representation (structs of such, arrays with single-sort elements).
+func valueRepresentable(t types.Type) bool {
+	switch u := under(t).(type) {
+	case *types.Struct:
+		for i := 0; i < u.NumFields(); i++ {
+			ft := u.Field(i).Type()
+			if isObjT(ft) {
+				if !valueRepresentable(ft) {
+					return false
+				}
+			} else if leavesOf(ft) == nil {
+				return false
+			}
+		}
+		return true
+	case *types.Array:
+		return singleSort(t) != nil && !isObjT(u.Elem())
+	}
+	return false
 }
